@@ -57,6 +57,18 @@ fn gen_names(c: &mut Choice, f: Flavor, nbucket: u32) -> Vec<Vec<u8>> {
         let nm: Vec<u8> = match (k, prev) {
             (0, _) => vec![],
             (1, Some(p)) => p,
+            // GNU: a longer name with the same hash that has an earlier name as proper prefix; a name whose hash is 0 or 1
+            (6, Some(p)) if f == Flavor::Gnu => refs::djb2_extend_collide(&p, c.u16() as u32).unwrap_or(p),
+            (7, _) if f == Flavor::Gnu && c.chance(128) => refs::djb2_suffix_to(b"", c.below(2) as u32, c.u16() as u32).unwrap_or_else(|| random_name(c)),
+            // SysV: names that drive the running hash to 0x0fffffff before the next shift (low-nibble-f bytes)
+            (6, _) if f == Flavor::SysV => {
+                let mut v = vec![*c.pick(&[0x0fu8, 0x1f, 0xff, 0x7f]); 6 + c.below(3) as usize];
+                v.push(0x10 + c.below(0xe0) as u8);
+                if c.bool() {
+                    v.push(1 + c.below(250) as u8);
+                }
+                v
+            }
             (2, Some(p)) | (3, Some(p)) => match f {
                 Flavor::Gnu => refs::djb2_collide(&p).unwrap_or(p),
                 Flavor::SysV => refs::elf_hash_collide(&p).unwrap_or(p),
@@ -100,7 +112,7 @@ fn gen_queries(c: &mut Choice, f: Flavor, names: &[Vec<u8>], nbucket: u32) -> Ve
             continue;
         }
         let p = names[c.idx(names.len())].clone();
-        match c.below(7) {
+        match c.below(8) {
             0 | 1 => {
                 if let Some(x) = match f {
                     Flavor::Gnu => refs::djb2_collide(&p),
@@ -133,6 +145,7 @@ fn gen_queries(c: &mut Choice, f: Flavor, names: &[Vec<u8>], nbucket: u32) -> Ve
                 }
             }
             5 if !p.is_empty() => q.push(p[..p.len() - 1].to_vec()),
+            6 if f == Flavor::Gnu && p.len() > 8 => q.push(p[..p.len() - 8].to_vec()),
             _ => q.push(random_name(c)),
         }
     }
@@ -376,7 +389,15 @@ fn hashfn_random(case: &[u8], obs: &mut Obs, f: Flavor) -> Result<(), String> {
         _ => c.below(65) as usize,
     };
     let hi = c.bool();
-    let name: Vec<u8> = (0..l).map(|_| if hi { c.u8() | 0x80 } else { c.u8() }).collect();
+    let mut name: Vec<u8> = (0..l).map(|_| if hi { c.u8() | 0x80 } else { c.u8() }).collect();
+    if c.chance(40) {
+        // saturate the running value: bytes with an all-ones low nibble, then a byte >= 0x10
+        let k = 5 + c.below(5) as usize;
+        let b = *c.pick(&[0x0fu8, 0xff, 0x1f, 0x7f, 0xef]);
+        name = vec![b; k];
+        name.push(c.u8());
+        name.push(c.u8());
+    }
     let (got, want) = match f {
         Flavor::Gnu => (gnu_hash(&name), refs::djb2(&name)),
         Flavor::SysV => (sysv_hash(&name), refs::elf_hash(&name)),
